@@ -417,3 +417,291 @@ Lemma helper_is_list : forall kinds stale s cells,
 Proof.
   intros. unfold helper. destruct (summary_simple kinds) eqn:E; [apply helper_simple_is_list; exact E|reflexivity].
 Qed.
+
+(* ------------------------------------------------------------------ one round over all source records *)
+
+Definition hrel (kinds : list kind) (prev : list (Z * list Z)) (s' : list mrow) (r : srow) (rh : Z * list Z) : Prop :=
+  fst rh = fst r /\ hspec kinds s' (entry prev (fst r)) (snd r) (snd rh).
+
+Lemma pass_spec : forall kinds prev src s s' hs,
+  pass kinds prev src s = (s', hs) ->
+  exists added, s' = s ++ added
+    /\ Forall2 (hrel kinds prev s') src hs
+    /\ (forall r, In r added -> max_id s < fst r)
+    /\ NoDup (map fst added)
+    /\ (forall i k, In (i, k) added ->
+          first_match s' k = Some i /\ exists r, In r src /\ In k (keys_of kinds (snd r))).
+Proof.
+  intros kinds prev src. induction src as [|r t IH]; intros s s' hs H; simpl in H.
+  - inversion H; subst. exists []. rewrite app_nil_r. split; [reflexivity|]. split; [constructor|].
+    split; [intros r []|]. split; [constructor|intros i k []].
+  - destruct (helper kinds (entry prev (fst r)) s (snd r)) as [s1 h] eqn:Eh.
+    destruct (pass kinds prev t s1) as [s2 hs'] eqn:Ep. inversion H; subst s' hs; clear H.
+    rewrite helper_is_list in Eh.
+    destruct (helper_list_spec _ _ _ _ _ _ Eh) as [a1 [Hs1 [Hh [Hid1 [Hnd1 Hk1]]]]].
+    destruct (IH s1 s2 hs' Ep) as [a2 [Hs2 [Hf [Hid2 [Hnd2 Hk2]]]]].
+    exists (a1 ++ a2). subst s1. split; [rewrite Hs2, app_assoc; reflexivity|].
+    split; [|split; [|split]].
+    + constructor; [|exact Hf]. split; [reflexivity|]. simpl. rewrite Hs2. apply hspec_extend. exact Hh.
+    + intros x Hx. apply in_app_or in Hx. destruct Hx as [Hx|Hx]; [apply Hid1; exact Hx|].
+      specialize (Hid2 x Hx). rewrite max_id_app in Hid2. lia.
+    + rewrite map_app. apply NoDup_app_local; [exact Hnd1|exact Hnd2|].
+      intros x Hx1 Hx2. apply in_map_iff in Hx1. destruct Hx1 as [r1 [<- Hr1]].
+      apply in_map_iff in Hx2. destruct Hx2 as [r2 [Heq Hr2]].
+      specialize (Hid2 r2 Hr2). assert (Hle : fst r1 <= max_id (s ++ a1)).
+      { apply max_id_ge. apply in_or_app. right. exact Hr1. }
+      lia.
+    + intros i k Hin. apply in_app_or in Hin. destruct Hin as [Hin|Hin].
+      * destruct (Hk1 i k Hin) as [Hf1 Hkeys]. split.
+        -- rewrite Hs2, fm_app, Hf1. reflexivity.
+        -- exists r. split; [left; reflexivity|exact Hkeys].
+      * destruct (Hk2 i k Hin) as [Hf2 [r' [Hr' Hkeys]]]. split; [exact Hf2|].
+        exists r'. split; [right; exact Hr'|exact Hkeys].
+Qed.
+
+Lemma pass_ids_NoDup : forall kinds prev src s s' hs,
+  pass kinds prev src s = (s', hs) -> NoDup (map fst s) -> NoDup (map fst s').
+Proof.
+  intros kinds prev src s s' hs H Hnd.
+  destruct (pass_spec _ _ _ _ _ _ H) as [added [-> [_ [Hid [Hnda _]]]]].
+  rewrite map_app. apply NoDup_app_local; [exact Hnd|exact Hnda|].
+  intros x Hx1 Hx2. apply in_map_iff in Hx1. destruct Hx1 as [r1 [<- Hr1]].
+  apply in_map_iff in Hx2. destruct Hx2 as [r2 [Heq Hr2]].
+  specialize (Hid r2 Hr2). pose proof (max_id_ge s r1 Hr1). lia.
+Qed.
+
+(* ------------------------------------------------------------------ groups *)
+
+Lemma group_of_In : forall hs i rid,
+  In rid (group_of hs i) <-> exists h, In (rid, h) hs /\ In i h.
+Proof.
+  intros hs i rid. unfold group_of. rewrite in_map_iff. split.
+  - intros [[rid' h] [Heq Hin]]. simpl in Heq. subst rid'. apply filter_In in Hin. destruct Hin as [Hin Hm].
+    exists h. split; [exact Hin|apply mem_z_In; exact Hm].
+  - intros [h [Hin Hi]]. exists (rid, h). split; [reflexivity|]. apply filter_In. split; [exact Hin|].
+    apply mem_z_In. exact Hi.
+Qed.
+
+Definition keepb (hs : list (Z * list Z)) (i : Z) : bool :=
+  match group_of hs i with [] => false | _ => true end.
+
+Lemma keepb_true : forall hs i rid h, In (rid, h) hs -> In i h -> keepb hs i = true.
+Proof.
+  intros hs i rid h Hin Hi. unfold keepb.
+  assert (H : In rid (group_of hs i)) by (apply group_of_In; exists h; split; assumption).
+  destruct (group_of hs i); [contradiction|reflexivity].
+Qed.
+
+Lemma auto_remove_filter : forall s hs,
+  auto_remove (with_groups s hs) = filter (fun r => keepb hs (fst r)) s.
+Proof.
+  intros s hs. unfold auto_remove, with_groups. induction s as [|r t IH]; simpl; [reflexivity|].
+  unfold nonempty_group at 1, keepb at 1. simpl.
+  destruct (group_of hs (fst r)); simpl; rewrite IH; [reflexivity|destruct r; reflexivity].
+Qed.
+
+Lemma filter_with_groups : forall s hs,
+  filter nonempty_group (with_groups s hs) = with_groups (filter (fun r => keepb hs (fst r)) s) hs.
+Proof.
+  intros s hs. unfold with_groups. induction s as [|r t IH]; simpl; [reflexivity|].
+  unfold nonempty_group at 1, keepb at 1. simpl.
+  destruct (group_of hs (fst r)) eqn:E; simpl; rewrite IH; [reflexivity|rewrite E; reflexivity].
+Qed.
+
+Lemma forallb_filter_id : forall {A} (p : A -> bool) l, forallb p l = true -> filter p l = l.
+Proof.
+  intros A p l. induction l as [|x t IH]; simpl; [reflexivity|].
+  intros H. apply andb_true_iff in H. destruct H as [Hx Ht]. rewrite Hx, (IH Ht). reflexivity.
+Qed.
+
+Lemma forallb_filter_self : forall {A} (p : A -> bool) l, forallb p (filter p l) = true.
+Proof.
+  intros A p l. induction l as [|x t IH]; simpl; [reflexivity|].
+  destruct (p x) eqn:E; simpl; [rewrite E|]; exact IH.
+Qed.
+
+(* entries that contain the same ids give the same groups *)
+Definition hequiv (a b : Z * list Z) : Prop := fst a = fst b /\ forall i, In i (snd a) <-> In i (snd b).
+
+Lemma group_of_equiv : forall hs1 hs2, Forall2 hequiv hs1 hs2 -> forall i, group_of hs1 i = group_of hs2 i.
+Proof.
+  intros hs1 hs2 H i. unfold group_of. induction H as [|a b l1 l2 [Hf Hi] _ IH]; simpl; [reflexivity|].
+  assert (Hm : mem_z i (snd a) = mem_z i (snd b)).
+  { destruct (mem_z i (snd a)) eqn:Ea, (mem_z i (snd b)) eqn:Eb; try reflexivity.
+    - apply mem_z_In in Ea. apply Hi in Ea. apply mem_z_In in Ea. congruence.
+    - apply mem_z_In in Eb. apply Hi in Eb. apply mem_z_In in Eb. congruence. }
+  rewrite Hm. destruct (mem_z i (snd b)); simpl; rewrite IH; [rewrite Hf|]; reflexivity.
+Qed.
+
+Lemma with_groups_equiv : forall s hs1 hs2, Forall2 hequiv hs1 hs2 -> with_groups s hs1 = with_groups s hs2.
+Proof.
+  intros s hs1 hs2 H. unfold with_groups. apply map_ext. intros r. rewrite (group_of_equiv _ _ H). reflexivity.
+Qed.
+
+(* ------------------------------------------------------------------ re-evaluating an up-to-date helper cell *)
+
+Lemma missing_none : forall s ks, (forall k, In k ks -> first_match s k <> None) -> missing_keys s ks = [].
+Proof.
+  intros s ks H. unfold missing_keys. induction ks as [|k t IH]; simpl; [reflexivity|].
+  destruct (first_match s k) eqn:E.
+  - apply IH. intros k' Hk'. apply H. right. exact Hk'.
+  - exfalso. apply (H k); [left; reflexivity|exact E].
+Qed.
+
+(* an entry that is what an evaluation would give: evaluating changes nothing but the order of the ids *)
+Lemma helper_list_valid : forall kinds stale s cells h0,
+  hspec kinds s stale cells h0 ->
+  exists h', helper_list kinds stale s cells = (s, h') /\ (forall i, In i h' <-> In i h0).
+Proof.
+  intros kinds stale s cells h0 H. unfold hspec in H. unfold helper_list.
+  destruct (row_keys kinds cells) as [ks|].
+  - destruct H as [H1 H2]. rewrite (missing_none s ks).
+    + simpl. rewrite !app_nil_r. exists (found_ids s ks). split; [reflexivity|].
+      intros i. unfold found_ids. rewrite in_flat_map. split.
+      * intros [k [Hk Hi]]. destruct (H1 k Hk) as [j [Hj Hf]]. rewrite Hf in Hi.
+        destruct Hi as [<-|[]]. exact Hj.
+      * intros Hi. destruct (H2 i Hi) as [k [Hk Hf]]. exists k. split; [exact Hk|]. rewrite Hf. left. reflexivity.
+    + intros k Hk. destruct (H1 k Hk) as [j [_ Hf]]. rewrite Hf. discriminate.
+  - exists stale. split; [reflexivity|]. subst h0. tauto.
+Qed.
+
+(* the records that are not re-evaluated have entries an evaluation would give *)
+Definition clean_valid (kinds : list kind) (dirty : list Z) (prev : list (Z * list Z)) (src : list srow)
+  (s : list mrow) : Prop :=
+  forall r, In r src -> mem_z (fst r) dirty = false ->
+    hspec kinds s (entry prev (fst r)) (snd r) (entry prev (fst r)).
+
+Lemma pass_d_full : forall kinds dirty prev src s,
+  clean_valid kinds dirty prev src s ->
+  exists s' hsd hs, pass_d kinds dirty prev src s = (s', hsd) /\ pass kinds prev src s = (s', hs) /\
+                    Forall2 hequiv hsd hs.
+Proof.
+  intros kinds dirty prev src. induction src as [|r t IH]; intros s Hv; simpl.
+  - exists s, [], []. split; [reflexivity|]. split; [reflexivity|constructor].
+  - destruct (mem_z (fst r) dirty) eqn:Ed.
+    + destruct (helper kinds (entry prev (fst r)) s (snd r)) as [s1 h] eqn:Eh.
+      assert (Hext : exists a, s1 = s ++ a).
+      { rewrite helper_is_list in Eh. destruct (helper_list_spec _ _ _ _ _ _ Eh) as [a [Ha _]]. exists a. exact Ha. }
+      destruct Hext as [a ->].
+      destruct (IH (s ++ a)) as [s' [hsd [hs [Hd [Hp Hq]]]]].
+      { intros r' Hr' Hc. apply hspec_extend. apply Hv; [right; exact Hr'|exact Hc]. }
+      rewrite Hd, Hp. exists s', ((fst r, h) :: hsd), ((fst r, h) :: hs).
+      split; [reflexivity|]. split; [reflexivity|]. constructor; [|exact Hq]. split; [reflexivity|tauto].
+    + pose proof (Hv r (or_introl eq_refl) Ed) as Hr.
+      destruct (helper_list_valid _ _ _ _ _ Hr) as [h' [Hh' Hi]].
+      rewrite helper_is_list, Hh'.
+      destruct (IH s) as [s' [hsd [hs [Hd [Hp Hq]]]]].
+      { intros r' Hr' Hc. apply Hv; [right; exact Hr'|exact Hc]. }
+      rewrite Hd, Hp. exists s', ((fst r, entry prev (fst r)) :: hsd), ((fst r, h') :: hs).
+      split; [reflexivity|]. split; [reflexivity|]. constructor; [|exact Hq]. split; [reflexivity|].
+      intros i. simpl. symmetry. apply Hi.
+Qed.
+
+Lemma pass_d_nothing_dirty : forall kinds prev src s,
+  pass_d kinds [] prev src s = (s, map (fun r => (fst r, entry prev (fst r))) src).
+Proof.
+  intros kinds prev src. induction src as [|r t IH]; intros s; simpl; [reflexivity|].
+  rewrite IH. reflexivity.
+Qed.
+
+Lemma entry_In : forall hs rid h, NoDup (map fst hs) -> In (rid, h) hs -> entry hs rid = h.
+Proof.
+  induction hs as [|p t IH]; intros rid h Hnd Hin; simpl in *; [contradiction|].
+  inversion Hnd as [|x l Hx Hl]; subst. destruct Hin as [->|Hin].
+  - simpl. rewrite Z.eqb_refl. reflexivity.
+  - destruct (Z.eqb_spec (fst p) rid) as [E|E].
+    + exfalso. apply Hx. rewrite E. apply in_map_iff. exists (rid, h). split; [reflexivity|exact Hin].
+    + apply IH; assumption.
+Qed.
+
+Lemma Forall2_hrel_fst : forall kinds prev s' src hs,
+  Forall2 (hrel kinds prev s') src hs -> map fst hs = map fst src.
+Proof.
+  intros kinds prev s' src hs H. induction H as [|r rh l1 l2 [Hf _] _ IH]; simpl; [reflexivity|].
+  rewrite Hf, IH. reflexivity.
+Qed.
+
+Lemma Forall2_In_l : forall {A B} (R : A -> B -> Prop) l1 l2 x,
+  Forall2 R l1 l2 -> In x l1 -> exists y, In y l2 /\ R x y.
+Proof.
+  intros A B R l1 l2 x H. induction H as [|a b l1 l2 Hab _ IH]; intros Hin; [contradiction|].
+  destruct Hin as [->|Hin]; [exists b; split; [left; reflexivity|exact Hab]|].
+  destruct (IH Hin) as [y [Hy Hr]]. exists y. split; [right; exact Hy|exact Hr].
+Qed.
+
+Lemma Forall2_In_r : forall {A B} (R : A -> B -> Prop) l1 l2 y,
+  Forall2 R l1 l2 -> In y l2 -> exists x, In x l1 /\ R x y.
+Proof.
+  intros A B R l1 l2 y H. induction H as [|a b l1 l2 Hab _ IH]; intros Hin; [contradiction|].
+  destruct Hin as [->|Hin]; [exists a; split; [left; reflexivity|exact Hab]|].
+  destruct (IH Hin) as [x [Hx Hr]]. exists x. split; [right; exact Hx|exact Hr].
+Qed.
+
+(* ------------------------------------------------------------------ the settle loop reaches a fixpoint *)
+
+(* after a round and the removal of the rows with empty groups, every entry is up to date *)
+Lemma round_fixpoint : forall kinds prev src s s1 hs,
+  NoDup (map fst src) -> pass kinds prev src s = (s1, hs) ->
+  clean_valid kinds [] hs src (filter (fun r => keepb hs (fst r)) s1).
+Proof.
+  intros kinds prev src s s1 hs Hnd Hp r Hr _.
+  destruct (pass_spec _ _ _ _ _ _ Hp) as [added [_ [Hf _]]].
+  destruct (Forall2_In_l _ _ _ r Hf Hr) as [rh [Hrh [Hfst Hs]]].
+  assert (He : entry hs (fst r) = snd rh).
+  { apply entry_In.
+    - rewrite (Forall2_hrel_fst _ _ _ _ _ Hf). exact Hnd.
+    - rewrite <- Hfst. destruct rh; exact Hrh. }
+  rewrite He. unfold hspec in *. destruct (row_keys kinds (snd r)) as [ks|]; [|reflexivity].
+  destruct Hs as [H1 H2].
+  assert (Hkeep : forall i, In i (snd rh) -> keepb hs i = true).
+  { intros i Hi. apply (keepb_true hs i (fst rh) (snd rh)); [destruct rh; exact Hrh|exact Hi]. }
+  split.
+  - intros k Hk. destruct (H1 k Hk) as [i [Hi Hfm]]. exists i. split; [exact Hi|].
+    apply fm_filter; [exact Hfm|apply Hkeep; exact Hi].
+  - intros i Hi. destruct (H2 i Hi) as [k [Hk Hfm]]. exists k. split; [exact Hk|].
+    apply fm_filter; [exact Hfm|apply Hkeep; exact Hi].
+Qed.
+
+Lemma entries_self : forall hs, NoDup (map fst hs) -> map (fun i => (i, entry hs i)) (map fst hs) = hs.
+Proof.
+  intros hs Hnd. rewrite map_map.
+  assert (H : forall l, (forall x, In x l -> In x hs) -> map (fun x => (fst x, entry hs (fst x))) l = l).
+  { induction l as [|x t IH]; intros Hin; simpl; [reflexivity|].
+    rewrite IH by (intros y Hy; apply Hin; right; exact Hy).
+    rewrite (entry_In hs (fst x) (snd x) Hnd) by (destruct x; apply Hin; left; reflexivity).
+    destruct x; reflexivity. }
+  apply H. auto.
+Qed.
+
+Lemma second_round : forall kinds prev src s s1 hs,
+  NoDup (map fst src) -> pass kinds prev src s = (s1, hs) ->
+  exists hs2, pass kinds hs src (filter (fun r => keepb hs (fst r)) s1)
+              = (filter (fun r => keepb hs (fst r)) s1, hs2) /\ Forall2 hequiv hs hs2.
+Proof.
+  intros kinds prev src s s1 hs Hnd Hp.
+  pose proof (round_fixpoint _ _ _ _ _ _ Hnd Hp) as Hv.
+  destruct (pass_d_full _ _ _ _ _ Hv) as [s' [hsd [hs2 [Hd [Hp2 Hq]]]]].
+  rewrite pass_d_nothing_dirty in Hd. inversion Hd; subst s' hsd; clear Hd.
+  exists hs2. split; [exact Hp2|].
+  destruct (pass_spec _ _ _ _ _ _ Hp) as [added [_ [Hf _]]].
+  pose proof (Forall2_hrel_fst _ _ _ _ _ Hf) as Hfst.
+  assert (Hself : map (fun r => (fst r, entry hs (fst r))) src = hs).
+  { transitivity (map (fun i => (i, entry hs i)) (map fst hs)).
+    - rewrite Hfst, map_map. reflexivity.
+    - apply entries_self. rewrite Hfst. exact Hnd. }
+  rewrite Hself in Hq. exact Hq.
+Qed.
+
+Lemma settle_loop_closed : forall kinds prev src summ s1 hs,
+  NoDup (map fst src) -> pass kinds prev src summ = (s1, hs) ->
+  forall f, settle_loop (S (S f)) kinds prev src summ = Some (filter nonempty_group (with_groups s1 hs)).
+Proof.
+  intros kinds prev src summ s1 hs Hnd Hp f.
+  cbn [settle_loop]. rewrite Hp.
+  destruct (forallb nonempty_group (with_groups s1 hs)) eqn:Ea.
+  - rewrite (forallb_filter_id _ _ Ea). reflexivity.
+  - rewrite auto_remove_filter.
+    destruct (second_round _ _ _ _ _ _ Hnd Hp) as [hs2 [Hp2 Hq]].
+    rewrite Hp2. rewrite <- (with_groups_equiv _ _ _ Hq). rewrite <- filter_with_groups.
+    rewrite forallb_filter_self. reflexivity.
+Qed.
